@@ -4,6 +4,7 @@
 -/
 import Gnet.Spec.ReactorSpec
 import Gnet.Proofs.ReactorLife
+import Gnet.Spec.ReactorExample
 namespace Gnet.Props.C18
 open Gnet.Reactor
 
@@ -33,6 +34,11 @@ theorem read_error_closes (fuel : Nat) (c : String) (s s' : RState) (r : Ret) (r
     ∃ x', lookup s' c = some x' ∧ x'.opened = false ∧ x'.registered = false ∧ x'.fdOpen = false ∧
       x'.word = x.word ++ ["close"] ∧ x'.closeErrNil = false :=
   Proofs.ReactorLife.read_error_closes fuel c s s' r rest len n err data x hx ho hr hn ht he he2 h
+
+/-! Non-vacuity: in the recorded history with a failing read (ECONNRESET) the connection is closed, its OnClose gets a
+non-nil error and its descriptor is released. -/
+example : Example.afterFault.bind Example.lifeView = some (["open", "traffic", "close"], false) ∧
+    Example.afterFault.bind Example.closeErrView = some false := by decide +kernel
 
 end Gnet.Props.C18
 
